@@ -172,23 +172,23 @@ Qed.
 
 Lemma expand_freevar_bstep : forall k pc x cs rep,
   get_node g (k_node k) = Some x -> n_kind x = KFreeVar ->
-  expand_freevar g k pc x = XCands cs rep -> forall c, In c cs -> bstepb g (k_node k) (c_node c) = true.
+  expand_freevar g cfg k pc x = XCands cs rep -> forall c, In c cs -> bstepb g (k_node k) (c_node c) = true.
 Proof.
   intros k pc x cs rep Hx Hk H c Hc. unfold expand_freevar in H.
   destruct pc as [[[[same fb] ip] pa]|]; try discriminate.
   destruct (negb same).
   - inversion H; subst. eapply bstep_in; eauto. eapply in_cands_src; eauto.
-  - destruct (k_ctrace k) as [|cid crest].
-    + destruct (get_graph g (n_graph x)) as [sg|] eqn:Hg; try discriminate.
-      destruct (g_refclosures sg) as [|mc0 rest] eqn:Hrc; try discriminate.
-      destruct (bvs_at g k (n_idx x) (mc0 :: rest)) as [r|] eqn:Hr; try discriminate.
-      inversion H; subst. destruct (bvs_at_spec _ _ _ _ Hr c Hc) as [mc [cl [H1 [H2 H3]]]].
-      eapply bstep_freevar; eauto.
+  - destruct (ctrace_top g cfg k x) as [[cid crest]|].
     + destruct (get_node g cid) as [cl|] eqn:Hcl; try discriminate.
       destruct (n_list cl) as [|b0 bs] eqn:Hl; try discriminate.
       destruct (nth_error (b0 :: bs) (n_idx x)) as [bv|] eqn:Hn; try discriminate.
       inversion H; subst. destruct Hc as [Hc|[]]. subst c. simpl.
       eapply bstep_freevar; eauto. rewrite Hl. exact Hn.
+    + destruct (get_graph g (n_graph x)) as [sg|] eqn:Hg; try discriminate.
+      destruct (g_refclosures sg) as [|mc0 rest] eqn:Hrc; try discriminate.
+      destruct (bvs_at g k (n_idx x) (mc0 :: rest)) as [r|] eqn:Hr; try discriminate.
+      inversion H; subst. destruct (bvs_at_spec _ _ _ _ Hr c Hc) as [mc [cl [H1 [H2 H3]]]].
+      eapply bstep_freevar; eauto.
 Qed.
 
 (** every candidate of an expansion is a backward step of the current node *)
